@@ -10,7 +10,7 @@ RULE = ('one record per decrypt attempt (one-shot and incremental with 2 partiti
         'complemented tag, sampled bit flips in ciphertext / AAD / nonce / key, truncation and extension, bytes moved across the AAD|ciphertext '
         'boundary, swapped lengths, foreign tag, zero tag, and the unmodified tuple; distinct = (interface, mutation kind, position)')
 ASSUMPTIONS = ['AEAD model of C06']
-FLOORS = {'evaluations': 4000, 'distinct': 600, 'coverage': {'accept': 20, 'reject': 3000}}
+FLOORS = {'evaluations': 4000, 'distinct': 600, 'coverage': {'accept': 12, 'reject': 3000}}
 
 
 def dec_lines(rng, rounds, key, nonce, aad, ct, tag, kind):
@@ -30,7 +30,7 @@ def flip(b, bit):
 def gen(tier, seed):
     rng = Rng('C07', seed)
     thorough = tier == 'thorough'
-    ntuples = 40 if thorough else 6
+    ntuples = 40 if thorough else 10
     tuples = []
     for i in range(ntuples):
         kl = rng.choice([16, 32])
